@@ -162,6 +162,50 @@ def _fmt_conds(path):
     return " and ".join("(" + " or ".join(repr(l) for l in c) + ")" for c in path.conds) or "always"
 
 
+
+def judge_add(path, res, P1, P2, a):
+    """classify one path of an addition of P1 = (X1, Y1, Z1) and P2 by its own tests and compare the
+    resulting triple with what the group law prescribes for that class -> (kind, ok, why)"""
+    sigma, rest = solve_literals(path)
+    op1 = _sub(P1, sigma)
+    op2 = _sub(P2, sigma)
+    (ref, H, N) = add_reference(*(op1 + op2))
+    if not (isinstance(res, tuple) and len(res) == 3 and all(isinstance(v, Rat) for v in res)):
+        return "no-triple", False, "returns %r, which is not a triple of ring expressions of the inputs" % (res,)
+    res = _sub(res, sigma)
+    polys = [r.n for r in rest if r.is_poly()]
+    n1 = {v for x in P1 for v in x.vars()}
+    n2 = {v for x in P2 for v in x.vars()}
+    y1z1 = tuple(v for x in P1[1:] for v in x.vars() if len(x.n.t) == 1)
+    y2z2 = tuple(v for x in P2[1:] for v in x.vars() if len(x.n.t) == 1)
+    id1 = any(is_var_power(q, y1z1) for q in polys) or op1[2].is_zero() or op1[1].is_zero()
+    id2 = any(is_var_power(q, y2z2) for q in polys) or op2[2].is_zero() or op2[1].is_zero()
+    zunits = tuple(v for x in (P1[2], P2[2]) for v in x.vars())
+    sameH = H.is_zero() or any(proportional_power(q, H.n, zunits) for q in polys)
+    sameN = N.is_zero() or any(proportional_power(q, N.n, zunits) for q in polys)
+    same = sameH and sameN
+    if id1 or id2:
+        ok = (id1 and triple_eq(res, op2)) or (id2 and triple_eq(res, op1)) or ((id1 and id2 or same) and identity_encoded(res))
+        return "identity-operand", ok, "returns %r instead of the other operand" % (res,)
+    if sameH and not sameN and identity_encoded(res):
+        return "opposite-operands", True, ""
+    if same:
+        units = zunits + y1z1 + y2z2
+        ok1, why1 = same_projective(res, dbl_reference(op1[0], op1[1], op1[2], a), units)
+        ok2, _w = same_projective(res, dbl_reference(op2[0], op2[1], op2[2], a), units)
+        yz = any(is_var_power(q, y1z1 + y2z2) for q in polys)
+        return "equal-operands", ok1 or ok2 or (yz and identity_encoded(res)), "returns (%r, %r, %r), which is not the doubling of either operand: %s" % (tuple(res) + (why1,))
+    ok, why = same_projective(res, ref, zunits)
+
+    def _excl(cl):
+        return all(l.kind == "nonzero" and isinstance(l.val, Rat) and l.val.is_poly() and
+                   (proportional_power(l.val.n.subst(sigma), H.n, zunits) or proportional_power(l.val.n.subst(sigma), N.n, zunits)) for l in cl)
+    if ok and not H.is_zero() and not any(_excl(cl) for cl in path.conds):
+        ok, why = False, "the chord formula is used without a test that excludes equal operands (for P == Q it degenerates to Z3 = 0)"
+    extra = [q for q in polys if not (proportional_power(q, H.n, zunits) or proportional_power(q, N.n, zunits))]
+    return "chord", ok, "returns a triple that is not the chord-formula sum of the two operands: %s%s" % (why, "; the path is taken under the unrecognised special case %r" % extra if extra else "")
+
+
 # ----------------------------------------------------------------------------- R06.10
 def jacobian_group_law(chk, p, pid="C06", rule="R06.10"):
     """every path of PointJacobi._add / PointJacobi._double returns the chord / tangent result"""
@@ -200,61 +244,15 @@ def jacobian_group_law(chk, p, pid="C06", rule="R06.10"):
     kinds = set()
     for path in paths:
         n_paths += 1
-        sigma, rest = solve_literals(path)
-        op1 = _sub((X1, Y1, Z1), sigma)
-        op2 = _sub((X2, Y2, Z2), sigma)
-        (ref, H, N) = add_reference(*(op1 + op2))
         cond = _fmt_conds(path)
         loc = p.loc("ellipticcurve", path.node) if path.node is not None else fa.qname
         key = "%s|%s|_add|%s" % (pid, rule, _path_key(path))
         if path.kind == "raise":
             chk.ob(rule, "_add path [%s] returns a coordinate triple" % cond, False, loc=loc, key=key, detail="_add raises %s on the path [%s]: the sum of two points is not computed" % (path.value, cond))
             continue
-        res = path.value
-        if not (isinstance(res, tuple) and len(res) == 3 and all(isinstance(v, Rat) for v in res)):
-            chk.ob(rule, "_add path [%s] returns a coordinate triple" % cond, False, loc=loc, key=key, detail="on the path [%s] _add returns %r, which is not a triple of ring expressions of the inputs (unknown: %s)" % (cond, res, ev.unknowns[:3]))
-            continue
-        res = _sub(res, sigma)
-        polys = [r.n for r in rest if r.is_poly()]
-        id1 = any(is_var_power(q, ("Y1", "Z1")) for q in polys) or op1[2].is_zero() or op1[1].is_zero()
-        id2 = any(is_var_power(q, ("Y2", "Z2")) for q in polys) or op2[2].is_zero() or op2[1].is_zero()
-        sameH = H.is_zero() or any(proportional_power(q, H.n) for q in polys)
-        sameN = N.is_zero() or any(proportional_power(q, N.n) for q in polys)
-        same = sameH and sameN
-        if id1 or id2:
-            kinds.add("identity-operand")
-            ok = (id1 and triple_eq(res, op2)) or (id2 and triple_eq(res, op1)) or ((id1 and id2 or same) and identity_encoded(res))
-            chk.ob(rule, "_add path [%s]: an operand is the identity -> the other operand" % cond, ok, loc=loc, key=key,
-                   detail="on the path [%s] (an operand is encoded as the identity) _add returns %r instead of the other operand" % (cond, res))
-            continue
-        if sameH and not sameN and identity_encoded(res):
-            # equal x, different y: the operands are opposite and the sum is the identity
-            kinds.add("opposite-operands")
-            chk.ob(rule, "_add path [%s]: equal x, different y -> identity encoding" % cond, True, loc=loc, key=key)
-            continue
-        if same:
-            kinds.add("equal-operands")
-            units = ("Z1", "Z2", "Y1", "Y2")
-            ok1, why1 = same_projective(res, dbl_reference(op1[0], op1[1], op1[2], a), units)
-            ok2, why2 = same_projective(res, dbl_reference(op2[0], op2[1], op2[2], a), units)
-            # doubling of a point whose Y (or Y^2) tested zero: identity
-            yz = any(is_var_power(q, ("Y1", "Y2", "Z1", "Z2")) for q in polys)
-            ok = ok1 or ok2 or (yz and identity_encoded(res))
-            chk.ob(rule, "_add path [%s]: equal operands -> the tangent (doubling) result" % cond, ok, loc=loc, key=key,
-                   detail="on the path [%s] (both operands are the same point) _add returns (%r, %r, %r), which is not the doubling of either operand: %s" % ((cond,) + tuple(res) + (why1,)))
-            continue
-        kinds.add("chord")
-        ok, why = same_projective(res, ref, ("Z1", "Z2"))
-        # the chord formula is only valid for operands that are not the same point: the path must
-        # carry a test that excludes H == 0 and N == 0 together (a clause of non-zero literals on H / N)
-        def _excl(cl):
-            return all(l.kind == "nonzero" and isinstance(l.val, Rat) and l.val.is_poly() and
-                       (proportional_power(l.val.n.subst(sigma), H.n) or proportional_power(l.val.n.subst(sigma), N.n)) for l in cl)
-        if ok and not H.is_zero() and not any(_excl(cl) for cl in path.conds):
-            ok, why = False, "the chord formula is used without a test that excludes equal operands (for P == Q it degenerates to Z3 = 0)"
-        extra = [q for q in polys if not (proportional_power(q, H.n) or proportional_power(q, N.n))]
-        chk.ob(rule, "_add path [%s]: chord formula" % cond, ok, loc=loc, key=key,
-               detail="on the path [%s] _add returns a triple that is not the chord-formula sum of (X1/Z1^2, Y1/Z1^3) and (X2/Z2^2, Y2/Z2^3): %s%s" % (cond, why, "; the path is taken under the unrecognised special case %r" % extra if extra else ""))
+        kind, ok, why = judge_add(path, path.value, (X1, Y1, Z1), (X2, Y2, Z2), a)
+        kinds.add(kind)
+        chk.ob(rule, "_add path [%s]: %s" % (cond, kind), ok, loc=loc, key=key, detail="on the path [%s] (%s) _add %s%s" % (cond, kind, why, "" if ok or not ev.unknowns else " (unknown: %s)" % ev.unknowns[:3]))
     chk.floor(rule, "paths of PointJacobi._add", len(paths), 5)
     for k in ("identity-operand", "equal-operands", "chord"):
         chk.ob(rule, "_add has a path of kind %s" % k, k in kinds, loc=fa.qname, key="%s|%s|_add-kind|%s" % (pid, rule, k), detail="_add has no path recognised as %s (operands equal / an operand the identity are not dispatched)" % k)
@@ -571,3 +569,84 @@ def ecdh_formula(chk, p, pid="C05", rule="R05.7"):
         okinf = any(l.kind == "ptnonzero" and l.val == want for l in path.unit_lits())
         chk.ob(rule, "shared secret returned only after d * Q was tested against INFINITY [%s]" % cond, okinf, loc=loc, key=key + "|inf", detail="_get_shared_secret returns without having excluded the point at infinity on the path [%s]" % cond)
     chk.floor(rule, "returning paths of ECDH._get_shared_secret", nret, 1)
+
+
+# ----------------------------------------------------------------------------- R07.7
+def loop_accumulator_updates(chk, p, pid="C07", rule="R07.7"):
+    """the accumulator of every multiplication loop is updated only by the verified internal
+    addition / doubling (R06.10), or - where a formula is written out in the loop - by arithmetic
+    that is itself a group-law addition of the accumulator and the table entry on every path"""
+    chk.rule(rule, "every path through the body of a multiplication loop leaves the accumulator unchanged, or replaces it by the result of the verified _add / _double (R06.10), "
+                   "or by inline arithmetic that passes the same path-wise formula identity with the loop's table entry as second operand")
+    X1, Y1, Z1 = V("X1"), V("Y1"), V("Z1")
+    a = V("a")
+    nloops = 0
+    for fname in ("_mul_precompute", "__mul__", "mul_add"):
+        f = p.func("ellipticcurve:PointJacobi." + fname)
+        acc = None
+        for n in ast.walk(f.node):
+            if isinstance(n, ast.Assign) and isinstance(n.targets[0], ast.Tuple) and isinstance(n.value, ast.Tuple) and len(n.value.elts) >= 3 and len(n.targets[0].elts) == len(n.value.elts):
+                vals = [getattr(x, "value", None) for x in n.value.elts[:3]]
+                if vals == [0, 0, 1] and all(isinstance(t, ast.Name) for t in n.targets[0].elts[:3]):
+                    acc = [t.id for t in n.targets[0].elts[:3]]
+        if acc is None:
+            raise AnalysisError("%s: %s has no accumulator initialised to (0, 0, 1)" % (rule, fname))
+        aliases = {"_add": "add", "_double": "double"}
+        for n in ast.walk(f.node):
+            if isinstance(n, ast.Assign) and isinstance(n.value, ast.Attribute) and n.value.attr in ("_add", "_double") and isinstance(n.targets[0], ast.Name):
+                aliases[n.targets[0].id] = "add" if n.value.attr == "_add" else "double"
+        for loop in [n for n in ast.walk(f.node) if isinstance(n, ast.For)]:
+            if not any(isinstance(x, ast.Name) and isinstance(x.ctx, ast.Store) and x.id in acc for st_ in loop.body for x in ast.walk(st_)):
+                continue
+            nloops += 1
+            calls = []
+
+            def call_hook(ev, e, ftext, args, kw, st, calls=calls, aliases=aliases):
+                last = ftext.rsplit(".", 1)[-1]
+                if last in aliases:
+                    i = len(calls)
+                    calls.append((aliases[last], args))
+                    return (V("@X%d" % i), V("@Y%d" % i), V("@Z%d" % i))
+                return None
+
+            ev = FormulaEval(p, moduli=("p",), call_hook=call_hook, inline=lambda f_: False)
+            env = {acc[0]: X1, acc[1]: Y1, acc[2]: Z1, "p": V("p"), "a": a}
+            entry = None
+            if isinstance(loop.target, ast.Tuple) and len(loop.target.elts) == 2 and all(isinstance(t, ast.Name) for t in loop.target.elts):
+                entry = [t.id for t in loop.target.elts]
+                env[entry[0]], env[entry[1]] = V("X2"), V("Y2")
+            outs = ev.run_block(f, loop.body, env)
+            for kind, fenv, conds, node in outs:
+                if kind in ("return", "raise"):
+                    continue
+                res = tuple(fenv.get(nm) for nm in acc)
+                from sa.formula import Path
+                path = Path(conds, "return", res, node)
+                cond = _fmt_conds(path)
+                key = "%s|%s|%s|%s" % (pid, rule, fname, _path_key(path))
+                loc = p.loc("ellipticcurve", loop)
+                if triple_eq(res, (X1, Y1, Z1)):
+                    chk.ob(rule, "%s loop path [%s]: accumulator unchanged" % (fname, cond[:80]), True, loc=loc, key=key, nontrivial=False)
+                    continue
+                marker = None
+                for i in range(len(calls)):
+                    if triple_eq(res, (V("@X%d" % i), V("@Y%d" % i), V("@Z%d" % i))):
+                        marker = i
+                if marker is not None:
+                    # the accumulator (or a verified result derived from it) is the first operand
+                    a0 = calls[marker][1][:3]
+                    okm = len(a0) == 3 and all(isinstance(x, Rat) for x in a0) and (triple_eq(tuple(a0), (X1, Y1, Z1)) or any(str(v).startswith("@") for x in a0 for v in x.vars()))
+                    chk.ob(rule, "%s loop path [%s]: accumulator <- verified %s(accumulator, ...)" % (fname, cond[:80], calls[marker][0]), okm, loc=loc, key=key,
+                           detail="%s: the %s call that produces the new accumulator does not take the accumulator as its first operand" % (fname, calls[marker][0]))
+                    continue
+                # a formula written out in the loop
+                if entry is None or not all(isinstance(v, Rat) for v in res):
+                    raise AnalysisError("%s: %s updates its accumulator by inline arithmetic the rule cannot relate to operands (%r)" % (rule, fname, res))
+                verdicts = []
+                for y in (V("Y2"), -V("Y2")):
+                    verdicts.append(judge_add(path, res, (X1, Y1, Z1), (V("X2"), y, C(1)), a))
+                okv = any(v[1] for v in verdicts)
+                kind_, _ok, why = verdicts[0] if not verdicts[1][1] else verdicts[1]
+                chk.ob(rule, "%s loop path [%s]: inline formula is the group-law sum of the accumulator and the table entry (%s)" % (fname, cond[:80], kind_), okv, loc=loc, key=key,
+                       detail="%s updates its accumulator with a formula written out in the loop which, on the path [%s] (%s), %s" % (fname, cond, kind_, why))
+    chk.floor(rule, "multiplication loops", nloops, 3)
